@@ -68,3 +68,87 @@ Definition exec_frame (a : arch) (pro epi : list instr) (sp0 ra : Z) (dirty pres
       end
     end
   end.
+
+(* ------------------------------------------------------------------ frames with argument copies (emit_args_assignment) *)
+(* an argument: source kind/value (0 = GP register id, 1 = offset from the first stack argument), destination kind/value
+   (0 = GP register id, 1 = offset from the body sp) *)
+Definition argspec := (Z * Z * Z * Z)%type.
+
+Definition arg_value (i : Z) : Z := 555000 + 17 * i.
+
+Fixpoint arg_regs_init (args : list argspec) (i : Z) (r : Z) : option Z :=
+  match args with
+  | [] => None
+  | (sk, sv, _, _) :: rest => if (sk =? 0) && (sv =? r) then Some (arg_value i) else arg_regs_init rest (i + 1) r
+  end.
+
+Fixpoint arg_mem_init (ws base : Z) (args : list argspec) (i : Z) (x : Z) : option mval :=
+  match args with
+  | [] => None
+  | (sk, sv, _, _) :: rest =>
+    if (sk =? 1) && (base + sv <=? x) && (x <? base + sv + ws) then Some (MFrag (arg_value i) ws (x - (base + sv)))
+    else arg_mem_init ws base rest (i + 1) x
+  end.
+
+Definition init_state_args (a : arch) (sp0 ra : Z) (args : list argspec) : state :=
+  let s := init_state a sp0 ra in
+  let ws := reg_size a in
+  mkst (fun g r => if (g =? 0) && negb (r =? sp_id a) then match arg_regs_init args 0 r with Some v => v | None => st_reg s g r end else st_reg s g r)
+       (fun x => match arg_mem_init ws (sp0 + ret_addr_size a) args 0 x with Some m => m | None => st_mem s x end)
+       None.
+
+(* index of the first argument that is not at its destination *)
+Fixpoint first_misplaced (a : arch) (s : state) (args : list argspec) (i : Z) : option Z :=
+  match args with
+  | [] => None
+  | (_, _, dk, dv) :: rest =>
+    let ok := if dk =? 0 then st_reg s 0 dv =? arg_value i
+              else match load_mem (st_mem s) (st_reg s 0 (sp_id a) + dv) (reg_size a) with Some v => v =? arg_value i | None => false end in
+    if ok then first_misplaced a s rest (i + 1) else Some i
+  end.
+
+Definition group_check (a : arch) (preserved srsize : quad) (s0 s3 : state) (g : Z) : option Z :=
+  first_bad g (filter (fun r => negb ((g =? 0) && (r =? sp_id a))) (bits_of 32 (qget preserved g)))
+            (if g =? 0 then reg_size a else qget srsize g) s0 s3.
+
+Definition preserved_check (a : arch) (preserved srsize : quad) (s0 s3 : state) : option Z :=
+  match group_check a preserved srsize s0 s3 0 with Some r => Some r | None =>
+  match group_check a preserved srsize s0 s3 1 with Some r => Some (32 + r) | None =>
+  match group_check a preserved srsize s0 s3 2 with Some r => Some (64 + r) | None =>
+  match group_check a preserved srsize s0 s3 3 with Some r => Some (96 + r) | None => None end end end end.
+
+(* result (code, detail): 0 ok | 1 prolog stuck | 5 argument copies stuck or sp changed | 6 argument `detail` not at its destination |
+   2 epilog stuck | 3 no/wrong return target | 4 wrong sp | 7 preserved register 32*group+id (= detail) not restored *)
+Definition exec_args_frame (a : arch) (pro asg epi : list instr) (sp0 ra : Z) (args : list argspec) (dirty preserved srsize : quad)
+                           (has_fp : bool) (csize local_off lsize cleanup : Z) : Z * Z :=
+  let s0 := init_state_args a sp0 ra args in
+  match run a pro s0 with
+  | None => (1, 0)
+  | Some s1 =>
+    let spb := st_reg s1 0 (sp_id a) in
+    match run a asg s1 with
+    | None => (5, spb)
+    | Some s1' =>
+      if negb (st_reg s1' 0 (sp_id a) =? spb) then (5, spb)
+      else match first_misplaced a s1' args 0 with
+      | Some i => (6, i)
+      | None =>
+        let s2 := poison_body a s1' dirty has_fp csize local_off lsize in
+        match run a epi s2 with
+        | None => (2, spb)
+        | Some s3 =>
+          match st_ret s3 with
+          | None => (3, spb)
+          | Some t =>
+            if negb (t =? ra) then (3, spb)
+            else if negb (st_reg s3 0 (sp_id a) =? sp0 + ret_addr_size a + cleanup) then (4, spb)
+            else
+              match preserved_check a preserved srsize s0 s3 with
+              | Some d => (7, d)
+              | None => (0, spb)
+              end
+          end
+        end
+      end
+    end
+  end.
